@@ -50,7 +50,7 @@ def run(ctx):
         i, fl, w, cmd = j
         cmd = [str(c) for c in cmd]
         what = '%s %s' % (fl, ' '.join(cmd[1:]))
-        r, st = ctx.run_with_stall_rule(lambda: ctx.run(cmd, timeout=7200 if thorough else 900, stall_s=120, tag='t%d' % i), what)
+        r, st = ctx.run_with_stall_rule(lambda: ctx.run(cmd, timeout=7200 if thorough else 900, stall_s=300, tag='t%d' % i), what)
         return j, r, st
 
     res = ctx.pmap(one, jobs, jobs=3)
